@@ -122,8 +122,8 @@ theorem nodup_indexHeads (cs : List Nat) (h : cs.Nodup) : (indexHeads anc cs).No
 
 /-- **`normalize_heads_spec`**: for a non-empty duplicate-free head set, `View::normalize_heads`
 keeps exactly the maximal elements (the root is below everything, so it survives only alone). -/
-theorem normalize_heads_spec (hpo : PO anc) (root : Nat) (hroot : ∀ x, anc root x = true)
-    (hs : List Nat) (hne : hs ≠ []) (hnd : hs.Nodup) (x : Nat) :
+theorem normalize_heads_spec (hpo : PO anc) (root : Nat) (hs : List Nat)
+    (hroot : ∀ x ∈ hs, anc root x = true) (hne : hs ≠ []) (hnd : hs.Nodup) (x : Nat) :
     x ∈ normalizeHeadIds anc root hs ↔ x ∈ hs ∧ ∀ d ∈ hs, anc x d = true → d = x := by
   unfold normalizeHeadIds
   have he : hs.isEmpty = false := by cases hs <;> simp_all
@@ -136,19 +136,19 @@ theorem normalize_heads_spec (hpo : PO anc) (root : Nat) (hroot : ∀ x, anc roo
     · rintro ⟨⟨h1, h2⟩, h3⟩
       refine ⟨h1, fun d hd ha => ?_⟩
       by_cases hdr : d = root
-      · subst hdr; exact absurd (hpo.antisymm _ _ ha (hroot x)) h2
+      · subst hdr; exact absurd (hpo.antisymm _ _ ha (hroot x h1)) h2
       · exact h3 d ⟨hd, hdr⟩ ha
     · rintro ⟨h1, h2⟩
       refine ⟨⟨h1, ?_⟩, fun d hd ha => h2 d hd.1 ha⟩
       rintro rfl
       -- some other element exists
-      match hs, hlen, hnd, h1, h2 with
-      | [a], hlen, _, _, _ => simp at hlen
-      | a :: b :: rest, _, hnd, h1, h2 =>
+      match hs, hlen, hnd, h1, h2, hroot with
+      | [a], hlen, _, _, _, _ => simp at hlen
+      | a :: b :: rest, _, hnd, h1, h2, hroot =>
         have hab : a ≠ b := by intro e; subst e; simp at hnd
         by_cases hxa : x = a
-        · subst hxa; exact hab (h2 b (by simp) (hroot b)).symm
-        · exact hxa (h2 a (by simp) (hroot a)).symm
+        · subst hxa; exact hab (h2 b (by simp) (hroot b (by simp))).symm
+        · exact hxa (h2 a (by simp) (hroot a (by simp))).symm
   · rename_i hlen
     match hs, hne, hlen with
     | [a], _, _ =>
@@ -170,13 +170,13 @@ theorem nodup_normalizeHeadIds (root : Nat) (hs : List Nat) (hnd : hs.Nodup) :
     · exact hnd
 
 /-- the result of `normalize_heads` is a normalized head set -/
-theorem normal_normalizeHeadIds (hpo : PO anc) (root : Nat) (hroot : ∀ x, anc root x = true)
-    (hs : List Nat) (hnd : hs.Nodup) : Normal anc root (normalizeHeadIds anc root hs) := by
+theorem normal_normalizeHeadIds (hpo : PO anc) (root : Nat) (hs : List Nat)
+    (hroot : ∀ x ∈ hs, anc root x = true) (hnd : hs.Nodup) : Normal anc root (normalizeHeadIds anc root hs) := by
   by_cases hne : hs = []
   · subst hne
     exact ⟨by simp [normalizeHeadIds], by simp [normalizeHeadIds],
       by simp [normalizeHeadIds], by simp [normalizeHeadIds]⟩
-  have spec := normalize_heads_spec anc hpo root hroot hs hne hnd
+  have spec := normalize_heads_spec anc hpo root hs hroot hne hnd
   have hcov : ∀ x ∈ hs, ∃ h ∈ normalizeHeadIds anc root hs, anc x h = true := by
     intro x hx
     obtain ⟨h, hh, hxh⟩ := indexHeads_covers anc hpo hs x hx
@@ -191,7 +191,7 @@ theorem normal_normalizeHeadIds (hpo : PO anc) (root : Nat) (hroot : ∀ x, anc 
     have hmax := ((spec root).mp hr).2
     -- every element equals root
     have hall : ∀ y ∈ normalizeHeadIds anc root hs, y = root :=
-      fun y hy => hmax y ((spec y).mp hy).1 (hroot y)
+      fun y hy => hmax y ((spec y).mp hy).1 (hroot y ((spec y).mp hy).1)
     have hnd' := nodup_normalizeHeadIds anc root hs hnd
     generalize normalizeHeadIds anc root hs = l at hr hall hnd'
     match l, hr, hall, hnd' with
@@ -201,11 +201,11 @@ theorem normal_normalizeHeadIds (hpo : PO anc) (root : Nat) (hroot : ∀ x, anc 
       subst h1; subst h2; simp at hnd'
 
 /-- everything that was (ancestor-or-equal of) a head candidate is below a normalized head -/
-theorem normalizeHeadIds_covers (hpo : PO anc) (root : Nat) (hroot : ∀ x, anc root x = true)
-    (hs : List Nat) (hnd : hs.Nodup) (x : Nat) (hx : x ∈ hs) :
+theorem normalizeHeadIds_covers (hpo : PO anc) (root : Nat) (hs : List Nat)
+    (hroot : ∀ x ∈ hs, anc root x = true) (hnd : hs.Nodup) (x : Nat) (hx : x ∈ hs) :
     ∃ h ∈ normalizeHeadIds anc root hs, anc x h = true := by
   have hne : hs ≠ [] := List.ne_nil_of_mem hx
-  have spec := normalize_heads_spec anc hpo root hroot hs hne hnd
+  have spec := normalize_heads_spec anc hpo root hs hroot hne hnd
   obtain ⟨h, hh, hxh⟩ := indexHeads_covers anc hpo hs x hx
   exact ⟨h, (spec h).mpr ((mem_indexHeads anc hs h).mp hh), hxh⟩
 
@@ -219,10 +219,10 @@ theorem normalizeHeadIds_subset (root : Nat) (hs : List Nat) (hne : hs ≠ []) (
   · exact hx
 
 /-- a normalized head set is a fixpoint of `normalize_heads` (as a set) -/
-theorem normalizeHeadIds_of_normal (hpo : PO anc) (root : Nat) (hroot : ∀ x, anc root x = true)
-    (hs : List Nat) (hn : Normal anc root hs) (x : Nat) :
+theorem normalizeHeadIds_of_normal (hpo : PO anc) (root : Nat) (hs : List Nat)
+    (hroot : ∀ x ∈ hs, anc root x = true) (hn : Normal anc root hs) (x : Nat) :
     x ∈ normalizeHeadIds anc root hs ↔ x ∈ hs := by
-  rw [normalize_heads_spec anc hpo root hroot hs hn.nonempty hn.nodup]
+  rw [normalize_heads_spec anc hpo root hs hroot hn.nonempty hn.nodup]
   constructor
   · exact fun h => h.1
   · exact fun h => ⟨h, fun d hd ha => (hn.antichain x h d hd ha).symm⟩
@@ -264,14 +264,14 @@ def fastHeads (hs : List Nat) (c : Nat) (ps : List Nat) : List Nat :=
 /-- **`add_heads_fast_path_ok`**: when the current heads are normalized, every parent of `c` is a
 current head and `c` has at least one parent, the incremental `replace_heads` produces exactly the
 set that insertion followed by `normalize_heads` would produce. -/
-theorem add_heads_fast_path_ok (hpo : PO anc) (root : Nat) (hroot : ∀ x, anc root x = true)
-    (hs : List Nat) (hn : Normal anc root hs) (c : Nat) (ps : List Nat) (hps : ps ≠ [])
+theorem add_heads_fast_path_ok (hpo : PO anc) (root : Nat) (hs : List Nat) (c : Nat)
+    (hroot : ∀ x ∈ setInsert c hs, anc root x = true) (hn : Normal anc root hs) (ps : List Nat) (hps : ps ≠ [])
     (hsub : ∀ p ∈ ps, p ∈ hs)
     (hpar : ∀ x, anc x c = true ↔ x = c ∨ ∃ p ∈ ps, anc x p = true)
     (hstrict : ∀ p ∈ ps, anc c p = false) (x : Nat) :
     x ∈ fastHeads hs c ps ↔ x ∈ normalizeHeadIds anc root (setInsert c hs) := by
   have hne : setInsert c hs ≠ [] := List.ne_nil_of_mem ((mem_setInsert c c hs).mpr (Or.inl rfl))
-  rw [normalize_heads_spec anc hpo root hroot _ hne (nodup_setInsert c hs hn.nodup), fastHeads,
+  rw [normalize_heads_spec anc hpo root _ hroot hne (nodup_setInsert c hs hn.nodup), fastHeads,
     mem_foldl_setRemove]
   simp only [mem_setInsert]
   have hcps : c ∉ ps := by
@@ -304,14 +304,14 @@ theorem add_heads_fast_path_ok (hpo : PO anc) (root : Nat) (hroot : ∀ x, anc r
     subst this; exact hcps hxps
 
 /-- … hence the `head_normalized` flag may stay set after the fast path -/
-theorem normal_fastHeads (hpo : PO anc) (root : Nat) (hroot : ∀ x, anc root x = true)
-    (hs : List Nat) (hn : Normal anc root hs) (c : Nat) (ps : List Nat) (hps : ps ≠ [])
+theorem normal_fastHeads (hpo : PO anc) (root : Nat) (hs : List Nat) (c : Nat)
+    (hroot : ∀ x ∈ setInsert c hs, anc root x = true) (hn : Normal anc root hs) (ps : List Nat) (hps : ps ≠ [])
     (hsub : ∀ p ∈ ps, p ∈ hs)
     (hpar : ∀ x, anc x c = true ↔ x = c ∨ ∃ p ∈ ps, anc x p = true)
     (hstrict : ∀ p ∈ ps, anc c p = false) : Normal anc root (fastHeads hs c ps) :=
   normal_of_mem_iff anc root _ _
-    (normal_normalizeHeadIds anc hpo root hroot _ (nodup_setInsert c hs hn.nodup))
+    (normal_normalizeHeadIds anc hpo root _ hroot (nodup_setInsert c hs hn.nodup))
     (nodup_foldl_setRemove _ _ (nodup_setInsert c hs hn.nodup))
-    (add_heads_fast_path_ok anc hpo root hroot hs hn c ps hps hsub hpar hstrict)
+    (add_heads_fast_path_ok anc hpo root hs c hroot hn ps hps hsub hpar hstrict)
 
 end JjModel.Heads
